@@ -136,6 +136,7 @@ def generate(template_path, repo):
             loops = {}
             replaces = []
             proofs = []
+            attrs = []
             mode = None
             i += 1
             while i < len(tl) and tl[i].strip() != '//@end':
@@ -150,12 +151,21 @@ def generate(template_path, repo):
                     if not m:
                         raise AnchorLost('bad replace directive: ' + t)
                     replaces.append((int(m.group(1)), m.group(2), m.group(3)))
+                elif t.startswith('//@attr'):
+                    attrs.append(t[len('//@attr'):].strip())
                 elif t.startswith('//@proof'):
                     m = re.match(r'//@proof\s+(before|after)\s*::\s*(.*)$', t)
                     if not m:
                         raise AnchorLost('bad proof directive: ' + t)
                     mode = ('proof', len(proofs))
-                    proofs.append([m.group(1), m.group(2), []])
+                    proofs.append([m.group(1), m.group(2), [], 'proof'])
+                elif t.startswith('//@ghost'):
+                    # raw `let ghost x = e;` declarations (must scope over the rest of the body)
+                    m = re.match(r'//@ghost\s+(before|after)\s*::\s*(.*)$', t)
+                    if not m:
+                        raise AnchorLost('bad ghost directive: ' + t)
+                    mode = ('proof', len(proofs))
+                    proofs.append([m.group(1), m.group(2), [], 'ghost'])
                 elif isinstance(mode, tuple) and mode[0] == 'proof':
                     proofs[mode[1]][2].append(tl[i])
                 elif mode == 'spec':
@@ -167,7 +177,7 @@ def generate(template_path, repo):
                 raise AnchorLost('directive without //@end in ' + template_path)
             i += 1  # skip //@end
             if is_fn:
-                _emit_fn(g, source(args['file']), args, spec, loops, replaces, proofs)
+                _emit_fn(g, source(args['file']), args, spec, loops, replaces, proofs, attrs)
             else:
                 _emit_struct(g, source(args['file']), args, replaces)
             continue
@@ -188,7 +198,7 @@ def _emit_struct(g, src, args, replaces):
     g.emit(text)
 
 
-def _emit_fn(g, src, args, spec, loops, replaces, proofs=()):
+def _emit_fn(g, src, args, spec, loops, replaces, proofs=(), attrs=()):
     cut = extract.cut_fn(src, args.get('impl', '-'), args['name'], int(args.get('nth', 0)))
     where = 'fn %s (%s:%d)' % (args['name'], args['file'], cut['line_start'])
     header, body = cut['header'], cut['body']
@@ -206,13 +216,17 @@ def _emit_fn(g, src, args, spec, loops, replaces, proofs=()):
         before, rest = joined.split('\x00')
         wh, body = rest.split('\x01')
     # ghost-only insertions (proof blocks are erased by Verus: executable text unchanged)
-    for pos, anchor, plines in proofs:
+    for pos, anchor, plines, pkind in proofs:
+        if pkind == 'ghost':
+            for pl in plines:
+                if pl.strip() and not re.match(r'\s*let ghost \w+(: [^=]+)? = [^;]*;\s*$', pl):
+                    raise AnchorLost('%s: ghost directive admits only `let ghost x = e;` lines, got %r' % (where, pl))
         pat = re.compile(_ws_pattern(anchor))
         ms = list(pat.finditer(body))
         if len(ms) != 1:
             raise AnchorLost('%s: proof anchor %r matched %d times (need exactly 1)' % (where, anchor, len(ms)))
         at = ms[0].end() if pos == 'after' else ms[0].start()
-        ins = '\nproof {\n' + '\n'.join(plines) + '\n}\n'
+        ins = ('\nproof {\n' + '\n'.join(plines) + '\n}\n') if pkind == 'proof' else ('\n' + '\n'.join(plines) + '\n')
         body = body[:at] + ins + body[at:]
         g.ghost.append({'where': where, 'pos': pos, 'anchor': anchor, 'lines': len(plines)})
     # splice loop invariants
@@ -228,6 +242,10 @@ def _emit_fn(g, src, args, spec, loops, replaces, proofs=()):
     spec_text = '\n'.join(spec)
     g.emit('// ---- extracted %s:%d-%d fn %s sha=%s ----' % (args['file'], cut['line_start'], cut['line_end'], args['name'], cut['sha']))
     gen_start = len(g.lines) + 1
+    for at in attrs:
+        if not re.fullmatch(r'#\[verifier::[a-z_]+(\([^\]]*\))?\]', at):
+            raise AnchorLost('%s: only #[verifier::..] attributes may be added, got %r' % (where, at))
+        g.emit(at)
     g.emit(before.rstrip())
     if wh.strip():
         g.emit(wh.rstrip())
